@@ -42,6 +42,9 @@ Step(e) ==
             LET hd == N.hs[h]
                 o == e.hs[h] IN
             CASE o.cls = "skip" -> 0      \* not looked through yet (the behaviour has only opened it so far)
+              [] hd.st = "open" /\ ~hd.stale /\ o.cls = "ok" /\ o.q # "ok" ->
+                   \* a prepared query over a collection and the collection's KV API disagree about the documents that exist
+                   F(FALSE, {"C19", "C11"}, e, <<"query-vs-kv", h, o.q>>, "ok", o.q)
               [] hd.st = "open" /\ ~hd.stale ->
                    LET st == N.store[hd.n][hd.u]
                        same(c, got) == SeqToSet(got) = st.docs[c]
